@@ -128,7 +128,37 @@ def exec_trace(data, entry, start, end, horizon=64):
     return sorted(set(out))
 
 
-def check(data, start, end, opts, map_addrs=None, map_fmt=None, ini=(), dictionary=None, tail=False, tiling_only=False):
+_BRANCH = re.compile(r'^(JP|JR|CALL|DJNZ)( [A-Z]+,| )(\d+)$')
+
+
+def self_overlapping(data, addrs, end):
+    """True if the code reachable from the trace overlaps itself: two instructions with different start
+    addresses share a byte, among the executed instructions and those reached from them statically (both
+    outcomes of every conditional branch, CALL targets and returns, inside the range).  Such a program has
+    no disassembly without overlapping instructions - sna2ctl (by design) marks the target of a jump from
+    executed code as code - so the sna2skool clauses are not demanded of it; termination, tiling and
+    'every mapped address in a code block' still are."""
+    mem = [0] * 65536
+    for i, b in enumerate(data):
+        mem[ORG + i] = b
+    seen = {}
+    work = list(addrs)
+    while work:
+        a = work.pop()
+        if a in seen or not ORG <= a < end:
+            continue
+        ins = z80ref.decode(mem, a)
+        seen[a] = a + ins.length
+        m = _BRANCH.match(ins.text)
+        if m:
+            work.append(int(m.group(3)))
+        if not (ins.text in ('RET', 'RETI', 'RETN', 'JP (HL)', 'JP (IX)', 'JP (IY)', 'HALT') or (m and m.group(1) in ('JP', 'JR') and m.group(2) == ' ')):
+            work.append(a + ins.length)
+    ext = sorted(seen.items())
+    return any(b0 < a1 for (a0, a1), (b0, b1) in zip(ext, ext[1:]))
+
+
+def check(data, start, end, opts, map_addrs=None, map_fmt=None, ini=(), dictionary=None, tail=False, tiling_only=False, no_skool=False):
     """Returns (list of problems, executions)."""
     d = tools.workdir()
     # the file continues past END (a NOP, a RET, a NOP): code that runs off the end of the
@@ -185,7 +215,7 @@ def check(data, start, end, opts, map_addrs=None, map_fmt=None, ini=(), dictiona
                 if not owner or owner[-1][0] != 'c':
                     problems.append('mapped address {} lies in a {!r} block'.format(a, owner[-1][0] if owner else None))
                     break
-    if problems or tiling_only:
+    if problems or tiling_only or no_skool:
         # arbitrary (non-trace) address sets: the property requires termination and tiling only
         return problems, 1
     # feed it to sna2skool (default options: -r sub-blocks are already in the control file)
@@ -289,12 +319,14 @@ def run_one(kind, spec, tier):
             addrs = exec_trace(data, entry, ORG, end)
             if not addrs:
                 continue
+            ovl = self_overlapping(data, addrs, end)
             for fmt in MAP_FORMATS:
                 for opts in ((), ('-C',)) if fmt == 'z80' else ((),):
                     for tail in ((False, True) if fmt == 'z80' else (False,)):
-                        p, n = check(data, ORG, end, opts, addrs, fmt, tail=tail)
+                        p, n = check(data, ORG, end, opts, addrs, fmt, tail=tail, no_skool=ovl)
                         yield ('trace/{}/entry{}/{}/{}{}'.format(names, ei, fmt, ' '.join(opts) or '-', '/tail' if tail else ''),
-                               {'kind': 'map', 'seq': list(seq), 'start': ORG, 'end': end, 'opts': list(opts), 'map': addrs, 'fmt': fmt, 'tail': tail}, p, n)
+                               {'kind': 'map', 'seq': list(seq), 'start': ORG, 'end': end, 'opts': list(opts), 'map': addrs, 'fmt': fmt, 'tail': tail,
+                                'no_skool': ovl}, p, n)
     elif kind == 'inline':
         inl, tailcode = spec
         c_addr = ORG + 10
@@ -340,6 +372,8 @@ def _shard(shard, nshards, tier, seed):
             stats.counters[kind] += 1
             if n == 3:
                 stats.counters['fed_to_sna2skool'] += 1
+            if case.get('no_skool'):
+                stats.counters['self_overlapping_program_not_fed_to_sna2skool'] += 1
             if problems:
                 arb = kind == 'subset'
                 stats.violation(cid, case, '; '.join(problems[:3]),
@@ -364,7 +398,7 @@ def run(tier, seed):
         exhaustive=True,
         bound='token sequences <= {}'.format(3 if tier == 'quick' else 4),
         assumptions=['the generated control file is fed to sna2skool with default options (sna2ctl -r already writes the RST argument sub-blocks)',
-                     'for arbitrary (non-trace) address sets only termination and tiling are required (as the property states); trace maps get every clause'],
+                     'for arbitrary (non-trace) address sets only termination and tiling are required (as the property states); trace maps get every clause, except that a program whose code reachable from the trace (both outcomes of each branch) overlaps itself is not fed to sna2skool (no control file can satisfy both clauses for it)'],
         required_guards=['plain', 'trace', 'subset', 'inline', 'opsweep', 'fed_to_sna2skool'],
     )
     return stats, meta
@@ -378,5 +412,5 @@ def replay(case):
     if case.get('pad8'):
         data = (data + bytes(8))[:max(8, len(data))]
     p, n = check(data, case['start'], case['end'], tuple(case['opts']), case.get('map'), case.get('fmt'), tuple(case.get('ini', ())), case.get('dict'),
-                 tail=case.get('tail', False), tiling_only=case.get('tiling_only', False))
+                 tail=case.get('tail', False), tiling_only=case.get('tiling_only', False), no_skool=case.get('no_skool', False))
     return p
